@@ -200,3 +200,41 @@ contract(
     modifies=[],
     name="set_states", native=False,
 )
+
+
+# ---------------------------------------------------------------- apply_name_scheme (--ffout): names only (C09)
+# The output naming scheme is looked up per atom under the residue's force-field name and the atom's current name; an atom
+# the scheme knows gets the scheme's atom name and a residue name; an atom it does not know is left as it is.  Nothing but
+# the two name fields of atoms is written: no coordinate, charge or radius, no list (the atom order stays).
+def NATOM(nm):
+    return Named(nm, Obj("pdb2pqr.structures:Atom", name=Str, res_name=Str, x=Real, y=Real, z=Real, ffcharge=Real, radius=Real))
+
+
+def named_by(atom, call, name0, res0):
+    """atom was renamed exactly as the scheme's answer says (or not at all if the scheme has no answer)."""
+    if call.ret[0] is None or call.ret[1] is None:
+        return atom.name == name0 and atom.res_name == res0
+    return atom.name == call.ret[1]
+
+
+contract(
+    "pdb2pqr.biomolecule:Biomolecule.apply_name_scheme", ["C09"],
+    params={"self": Obj("pdb2pqr.biomolecule:Biomolecule", residues=Items(
+        Named("ra", Obj("pdb2pqr.aa:LYS", name=Str, ffname=Str, is_n_term=Bool, is_c_term=Bool, atoms=Items(NATOM("n0"), NATOM("n1")))),
+        Named("rw", Obj("pdb2pqr.aa:WAT", name=Const("HOH"), ffname=Const("WAT"), atoms=Items(NATOM("n2")))),
+        Named("rl", Obj("pdb2pqr.residue:Residue", name=Const("LIG"), atoms=Items(NATOM("n3")))))),
+            "forcefield_": Obj("pdb2pqr.forcefield:Forcefield")},
+    requires=[],
+    ensures=[
+        "len(calls()) == 4",
+        # asked under the residue's force-field name (hetero groups: their own name) and the atom's current name
+        "calls()[0].args['resname'] == old(ra.ffname) and calls()[0].args['atomname'] == old(n0.name)",
+        "calls()[1].args['resname'] == old(ra.ffname) and calls()[1].args['atomname'] == old(n1.name)",
+        "calls()[2].args['resname'] == 'WAT' and calls()[3].args['resname'] == 'LIG'",
+        "named_by(n0, calls()[0], old(n0.name), old(n0.res_name)) and named_by(n1, calls()[1], old(n1.name), old(n1.res_name))",
+        "named_by(n2, calls()[2], old(n2.name), old(n2.res_name)) and named_by(n3, calls()[3], old(n3.name), old(n3.res_name))",
+    ],
+    trace={"pdb2pqr.forcefield:Forcefield.get_names": TupleOf(Opt(Str), Opt(Str))},
+    modifies=["n0.name", "n0.res_name", "n1.name", "n1.res_name", "n2.name", "n2.res_name", "n3.name", "n3.res_name"],
+    name="apply_name_scheme", native=False, budget=20000,
+)
